@@ -46,7 +46,7 @@ def c23_1(cx):
         cx.check(ok, "deleted entries are freed only with exclusive access to the ingredient", s, key="clear-caller " + s.body.path)
     n = 0
     for s in cx.facts.call_sites_of(r"^std::boxed::Box::<T>::from_raw$|Box::<T, A>::from_raw"):
-        if not re.search(r"function/|table/memo", s.body.file):
+        if not re.search(r"function(/|\.rs$)|table/memo", s.body.file):
             continue
         n += 1
         ok = re.search(r"SharedBox<T> as std::ops::Drop>::drop$|MemoTable|MemoEntry|LazyMemoEntries|memo::", s.body.path) is not None
@@ -432,3 +432,27 @@ def c24_2(cx):
     pn = cx.fn(r"^table::Page::new$")
     agg = cx.one(pn.aggregates(r"^table::Page$"), "Page aggregate")
     cx.flow(pn, pn._origin_def(agg, "assign", agg.node(), 0, None, ()), [r"ingredient: \$1[,}]"], [r"ingredient: const:"], "a page remembers the ingredient it was created for", agg)
+
+
+@ob("C23.8", ["C23", "C25"], "every allocation an origin owns must be returned exactly by its destructor: an arm that forgets its allocation leaks it for the life of the process (also after the database is dropped); an arm that frees what another layout owns is a double free / type confusion", kind="TABLE (allocation pairing constructor <-> Drop)")
+def c23_8(cx):
+    """OriginAndExtra: assigned_with_extra boxes an AssignedOriginAndExtra (Box::into_raw) and tags it (Assigned, WithExtra); Drop reclaims exactly that (Box::from_raw of AssignedOriginAndExtra) only under (Assigned, WithExtra) and every path of Drop with that tag reaches it; plain assigned origins own nothing; the four derived layouts are covered by C25.3."""
+    c = cx.fn(r"^zalsa_local::OriginAndExtra::assigned_with_extra$")
+    ir = cx.one_call(c, r"^std::boxed::Box::<T>::into_raw$|Box::<T, A>::into_raw$", "Box::into_raw in assigned_with_extra")
+    cx.flow(c, cx.arg(ir, 0), [r"^std::boxed::Box::<T>::new\(AssignedOriginAndExtra\{"], [], "the boxed value is an AssignedOriginAndExtra", ir)
+    ro = c.origin_local(0)
+    cx.flow(c, ro, [r"tag: zalsa_local::OriginAndExtraTag::with_extra\(zalsa_local::QueryOriginTag::assigned\(\)\)"], [r"without_extra"], "and the origin is tagged (Assigned, WithExtra)")
+    cx.flow(c, ro, [r"payload: OriginAndExtraPayload\{allocation: .*Box::<T(, A)?>::into_raw\("], [], "with that allocation as payload")
+    d = cx.fn(r"^<zalsa_local::OriginAndExtra as std::ops::Drop>::drop$")
+    kind = r"QueryOriginTag::kind\("
+    lay = r"OriginAndExtraTag::layout\("
+    frs = [s for s in d.calls(r"^std::boxed::Box::<T>::from_raw$|Box::<T, A>::from_raw$")]
+    cx.check(len(frs) >= 1, "Drop reclaims the boxed AssignedOriginAndExtra", None, key="assigned-extra-freed", body=d)
+    for s in frs:
+        cx.only_if(d, s, VariantIn(kind, {"Assigned"}, desc="origin kind is Assigned"), "the Box is reclaimed only for Assigned origins")
+        cx.only_if(d, s, VariantIn(lay, {"WithExtra"}, desc="layout is WithExtra"), "and only when it was allocated (WithExtra)")
+        cx.flow(d, cx.arg(s, 0), [r"\$1\.payload\.allocation"], [], "the pointer reclaimed is this origin's payload", s)
+        ga = s.node()["fn"].get("gargs") or []
+        cx.check(any("AssignedOriginAndExtra" in g for g in ga), "reclaimed with the type it was allocated with", s, {"gargs": ga}, key="from_raw-type")
+    if frs:
+        cx.skipped_only_if(d, frs[0], [VariantIn(kind, {"Derived", "DerivedUntracked"}, desc="origin is derived"), VariantIn(lay, {"WithoutExtra"}, desc="no extra allocated")], "Drop skips the reclamation only for origins that never allocated the box")
